@@ -130,6 +130,9 @@ func ruleSingleRounding(w *World, r *RuleResult) {
 					return true
 				}
 				// replaced by a shared special (NaN): nothing left to round
+				if di := destArgIndex(w, f); di < len(f.Params) && w.nanWholeWrite(in, ssa.Value(f.Params[di])) {
+					return true
+				}
 				if cc, ok := in.(*ssa.Call); ok && w.calleeName(cc) == "(*Decimal).Set" {
 					for _, l := range p.roots(cc.Common().Args[1]) {
 						if l.Root.shared() {
